@@ -750,6 +750,15 @@ func Generate(t *rapid.T, cfg Cfg) *Layout {
 		}
 		paths["/a2"] = M{"$ref": g.relSpelling(root, hop)}
 	}
+	if cfg.PathChains {
+		// an extension next to the reference of a path item changes nothing about the reference
+		for _, k := range jv.Keys(paths) {
+			if pi, ok := paths[k].(M); ok && len(pi) == 1 && pi["$ref"] != nil && g.chance(3, "pirefext") {
+				pi["x-note"] = "kept"
+				g.feat["form:pathitem-ref-with-extension"]++
+			}
+		}
+	}
 	if cfg.SameSpelling && g.chance(3, "samespelling") {
 		// one spelling, two directories, two files: "pet.json" next to the root and "pet.json" next to a
 		// file of a sub-directory; the root's own whole-file component sorts after the component that
